@@ -280,7 +280,7 @@ def key_of(inv, rec, prev=None):
         where = "SignalFromMake" + ("+Probe" if "Probe" in acts else "")
     if inv == "C09_Quiescent":
         # a task that never goes idle: the class is which kind of fault preceded it in the schedule
-        kinds = sorted({b.get("a") for b in (rec.get("sched_steps") or []) if b.get("a") in ("Prefix", "ResetConnect", "Garbage")})
+        kinds = sorted({b.get("a") for b in (rec.get("sched_steps") or []) if b.get("a") in ("Prefix", "ResetConnect")})
         where = "stalled-after-" + "+".join(kinds) if kinds else "stalled"
     if inv in ("C09_SrvStable", "C09_EndsOnlyOnAllowed") and rec.get("srv") != "running":
         # the serving future ended without an allowed cause: the class is (result, was a connect given up)
